@@ -28,7 +28,7 @@ RULE = (
 EXHAUSTIVE_SUBSPACES = ["all 4 (fold, optimize) combinations per case"]
 ASSUMPTIONS = ["for derived circuits the shared tensors belong to the operands: 'exactly once' is asserted on the owning circuit, presence + round trip on the derived one"]
 FLOOR = {"pipeline": 1, "ccp:pointer-fold-idx": 1, "cc:fold>1:TorchEvidenceLayer": 1, "in:constant-lin": 1, "torch.save": 1, "third-instance": 1,
-         "outputs_compared_bitexact": 100, "derived-after-base-reload": 1}
+         "outputs_compared_bitexact": 100, "derived-after-base-reload": 1, "derived-compiled-after-load": 1, "warm-fresh-differs-before-load": 1}
 
 
 def plan(tier, seed):
@@ -134,9 +134,16 @@ def run_case(case) -> Result:
         B = C.new_compiler(sr, fold, opt)
         if C.compile_in(res, B, root, f"B [{tag}]") is None:
             continue
+        warm = rng.random() < 0.7
         for c in circuits:
             ccB = B.get_compiled_circuit(c)
             ccB.reset_parameters()
+            if warm:  # "whatever its fresh initial values": the fresh instance may well have been used before the load
+                o = call(C.evaluate, ccB, pools[id(c)])
+                if o.ok and c.operation is None and o.value.shape == outs_A[id(c)].shape and not bit_equal(o.value, outs_A[id(c)]):
+                    res.features.add("warm-fresh-differs-before-load")
+        for c in circuits:
+            ccB = B.get_compiled_circuit(c)
             o = call(ccB.load_state_dict, sds[id(c)], strict=True)
             if not o.ok:
                 res.violate("load-state-dict-failed", f"[{tag}] circuit#{circuits.index(c)}: {o.exc_type}: {str(o.exc)[:300]}")
@@ -172,6 +179,34 @@ def run_case(case) -> Result:
                             # constants of derived circuits are re-created identically by compilation
                             if not bit_equal(o.value, outs_A[id(c)]):
                                 res.violate("derived-differs-after-base-reload", f"[{tag}] derived circuit#{circuits.index(c)} differs after reloading only its operands")
+            # lazily: only the operands exist when the dictionaries are loaded (another instance of the same
+            # symbolic circuits is compiled elsewhere in between); derived circuits are compiled afterwards
+            L, M = C.new_compiler(sr, fold, opt), C.new_compiler(sr, fold, opt)
+            bases = [c for c in circuits if c.operation is None]
+            okl = True
+            for c in bases:
+                okl &= C.compile_in(res, L, c, f"L [{tag}]") is not None
+            for c in bases:
+                okl &= C.compile_in(res, M, c, f"M [{tag}]") is not None
+            if okl:
+                for c in bases:
+                    okl &= call(L.get_compiled_circuit(c).load_state_dict, sds[id(c)], strict=True).ok
+            if okl and C.compile_in(res, L, root, f"L derived [{tag}]") is not None:
+                res.features.add("derived-compiled-after-load")
+                for c in circuits:
+                    o = call(C.evaluate, L.get_compiled_circuit(c), pools[id(c)])
+                    if not o.ok:
+                        continue
+                    res.count("outputs_compared_bitexact", int(np.prod(o.value.shape)))
+                    if not bit_equal(o.value, outs_A[id(c)]):
+                        kind_ = "derived circuit compiled after the load" if c.operation else "reloaded operand, after derived circuits were compiled in its context"
+                        res.violate("differs-after-compiling-derived", f"[{tag}] circuit#{circuits.index(c)} ({kind_}) differs from the saved circuit")
+                for c in bases:
+                    now = L.get_compiled_circuit(c).state_dict()
+                    for k_, v_ in sds[id(c)].items():
+                        if k_ not in now or not torch.equal(now[k_], v_):
+                            res.violate("state-dict-changed-by-derived-compile", f"[{tag}] entry {k_} of a reloaded operand changed when a derived circuit was compiled")
+                            break
         else:
             # history on a single circuit: step, save, load into a third instance
             ccA = A.get_compiled_circuit(root)
